@@ -51,7 +51,7 @@ PROPS = {
     "C20": dict(runs=[dict(unit=U1, groups=["plan"], mode="T")], own_groups=["plan"], owns_shared="safety",
                 undecided_sentences=["the text itself: format strings and the sanitised / placeholder labels are uninterpreted (the label of a named system is sanitise(a name registered for that id), of an unnamed one sanitise(placeholder(id)))",
                                      "'at the position at which the built dispatcher really runs it': the printed table is the id table; that it has the shape of the executed list is the lock-step invariant (C04) and build() returning that list"]),
-    "C13": dict(runs=[dict(unit=U1, groups=["hooks"])], own_groups=["hooks"], undecided_sentences=[]),
+    "C13": dict(runs=[dict(unit=U1, groups=["hooks"]), dict(unit=U6, groups=["ahooks", "hooks"], mode="T")], own_groups=["hooks", "ahooks"], undecided_sentences=[]),
 }
 
 TRUSTED = {
